@@ -457,7 +457,12 @@ class WebVTTWriter(BaseWriter):
 
         if s:
             layout_groups.append((s, current_layout))
-        return layout_groups
+        # "-->" can also come together from two adjacent text nodes ("a --"
+        # and "> b"), each of which was escaped on its own
+        return [
+            (text.replace("-->", "--&gt;"), layout)
+            for text, layout in layout_groups
+        ]
 
     def _encode_illegal_characters(self, s):
         """
